@@ -688,6 +688,9 @@ pub mod lay {
     }
     #[derive(Savefile)] #[repr(C)] pub struct PairA { pub a: u8, pub b: u8, pub c: u16 }
     #[derive(Savefile)] pub struct PairB { pub a: u8, pub b: u8, pub c: u16 }
+    #[derive(Savefile)] #[repr(C)] pub struct BoxedU64 { pub a: Box<u64> }
+    #[derive(Savefile)] #[repr(C)] pub struct ArcU64 { pub a: std::sync::Arc<u64> }
+    #[derive(Savefile)] #[repr(C)] pub struct PlainU64 { pub a: u64 }
     #[derive(Savefile)] #[repr(C)] pub struct Same1 { pub a: u32, pub b: u32 }
     #[derive(Savefile)] #[repr(C)] pub struct Same2 { pub a: u32, pub b: u32 }
 }
@@ -711,4 +714,14 @@ pub fn layout_type_pairs<S: Src>(s: &mut S) {
         }
         _ => { let _ = get_schema::<lay::Same1>(0).layout_compatible(&get_schema::<lay::Same2>(0)); }
     }
+}
+
+/// C11: a struct holding a smart pointer to T versus a struct holding T inline (one harness, so that a finding is keyed to it)
+pub fn layout_smart_pointers<S: Src>(s: &mut S) {
+    use savefile::get_schema;
+    let (a, b, what) = match s.below(2) {
+        0 => (get_schema::<lay::BoxedU64>(0), get_schema::<lay::PlainU64>(0), "struct { a: Box<u64> } and struct { a: u64 }"),
+        _ => (get_schema::<lay::ArcU64>(0), get_schema::<lay::PlainU64>(0), "struct { a: Arc<u64> } and struct { a: u64 }"),
+    };
+    assert!(!a.layout_compatible(&b) && !b.layout_compatible(&a), "C11: {} must not be judged layout compatible (one holds a pointer, the other the value)", what);
 }
